@@ -227,3 +227,29 @@ Theorem C08_reveal_both_sides : forall n T M dr, (2 <= n)%nat -> TInv n T M ->
   let '(a4, l4, r4) := if l_full (c_left (fst V)) then reveal_after n T dr l3 r3 {| l_ptrs := P; l_full := true |} (length P) else (0, l3, r3) in
   a1 + a2 + a3 + a4 = snd (rs_finish n (flat n T rs_init (us ++ ws ++ vs))) - snd U - snd Mf - snd V.
 Proof. intros n T M dr Hn I Hr Hx. exact (reveal_both_sides n Hn T M I dr Hr Hx). Qed.
+
+(* ANY interleaving: the instalments of the two sides in any order -- `ops` is a list of "RevealBefore up to c words" (OB c) and
+   "RevealAfter up to c pointers" (OA c) whose left-hand cuts increase strictly up to the length of the preceding fragment's right
+   state and whose right-hand cuts increase up to the number of left pointers of the following fragment -- then the two closing
+   calls, accumulate the three-fragment whole minus its parts.  A RevealBefore instalment and a RevealAfter instalment commute
+   (commute_open: again the single call / first call / second call simulation, the second call now starting from the loop state
+   RevealBefore has reached after the fragment's own pointers), so any interleaving can be sorted (sort_ops); the left-hand closing
+   call commutes with RevealAfter (closing_commutes_ra: rest costs + UnRest = probabilities); C08_reveal_both_sides does the rest. *)
+Theorem C08_reveal_interleaved : forall n T M dr, (2 <= n)%nat -> TInv n T M ->
+  (dr = false -> forall k e, T k = Some e -> e_rest e = e_prob e) ->
+  (forall k e, T k = Some e -> e_ext e = true -> (2 <= length k)%nat -> exists x, T (x :: k) <> None) ->
+  forall us ws vs ops cb cutsb ca cutsa, ws <> [] ->
+  Forall (known T) us -> Forall (known T) ws -> Forall (known T) vs ->
+  let U := rs_finish n (flat n T rs_init us) in
+  let Mf := rs_finish n (flat n T rs_init ws) in
+  let V := rs_finish n (flat n T rs_init vs) in
+  let rv := c_right (fst U) in
+  let P := l_ptrs (c_left (fst V)) in
+  bcuts ops = cb :: cutsb -> acuts ops = ca :: cutsa ->
+  sincreasing 0 (cb :: cutsb) (length (s_words rv)) -> last cutsb cb = length (s_words rv) ->
+  increasing 0 (ca :: cutsa) (length P) -> last cutsa ca = length P ->
+  let '(a, l1, r1) := run_ops n T dr (s_words rv) (s_bo rv) P (c_left (fst Mf)) (c_right (fst Mf)) 0 0 ops in
+  let '(b, l2, r2) := if l_full (c_left (fst U)) then reveal_before n T dr rv (length (s_words rv)) true l1 r1 else (0, l1, r1) in
+  let '(c, l3, r3) := if l_full (c_left (fst V)) then reveal_after n T dr l2 r2 {| l_ptrs := P; l_full := true |} (length P) else (0, l2, r2) in
+  a + b + c = snd (rs_finish n (flat n T rs_init (us ++ ws ++ vs))) - snd U - snd Mf - snd V.
+Proof. intros n T M dr Hn I Hr Hx. exact (reveal_interleaved n Hn T M I dr Hr Hx). Qed.
